@@ -64,6 +64,11 @@ CLAIMS = {
   'design_ref': 'DESIGN.md section 4 / C06',
   'note': 'Trusted: asyncio cancellation model, C03 (the body runs on the current state under the lock). Not decided: effects of peer messages arriving later. One defect found and fixed (bac8603).',
  },
+ 'C17': {
+  'text': 'Proof. For every state class, both directions and legacy records, the real __getstate__ / __setstate__ are executed on a transfer with symbolic persistent fields: the pickled dictionary drops exactly the run-time fields, __getstate__ does not mutate, a NEW object restored from a copy has every persistent field unchanged, the state of the class with the same VALUE bound to the new object behind the lock wrapper, fresh run-time fields, and the legacy abort-reason rule. The cache key is extracted from the real TransferShelveCache.write and its injectivity on (user, path, direction) is a string-theory validity query (refuted: known finding). read_cache is executed for an arbitrary persisted transfer of every state: INITIALIZING becomes QUEUED, transferring becomes COMPLETE iff filesize == bytes_transfered else INCOMPLETE with time variables reset, nothing stays in progress, the remote-queue mark is cleared and every loaded transfer goes through add(), which wires the manager as state listener, lists it once and requests a management cycle.',
+  'design_ref': 'DESIGN.md section 4 / C17',
+  'note': 'Trusted: pickle/shelve/dbm (shelf modelled as a dictionary), sha256 injective. write() exactness is a BOUNDED stand-in (<= 2 transfers, not counted). One recorded known finding: the key is a concatenation and therefore not injective (on-disk format change needed to repair).',
+ },
 }
 
 NA_DEFAULT = 'check not built yet (work in progress; see DESIGN.md section 4 for the planned contracts)'
